@@ -256,7 +256,7 @@ def swizzle_domain(ctx):
     for n in range(1, maxlen + 1):
         rec("", n)
     if maxlen < 4:
-        for _ in range(ctx.scale(1500, 0)):
+        for _ in range(ctx.scale(600, 0)):
             names.append("".join(rng.choice(LETTERS) for _ in range(4)))
         # every 4-letter name over the two legal alphabets (the accepting region and its border)
         for alpha in ("xyzw", "rgba"):
@@ -265,7 +265,7 @@ def swizzle_domain(ctx):
                     for c in alpha:
                         for d in alpha:
                             names.append(a + b + c + d)
-    for _ in range(ctx.scale(300, 3000)):
+    for _ in range(ctx.scale(100, 3000)):
         names.append("".join(rng.choice(LETTERS) for _ in range(5 + rng.below(2))))
     return sorted(set(names))
 
@@ -297,7 +297,7 @@ def leaf_correspondence(ctx, tools, exe):
     for cname, tmpl in sorted(SWZ_CONTEXTS.items()):
         # the whole domain through one access path; the other paths share swizzleIndex/swizzlePattern:
         # all names up to two letters plus a seeded sample of the rest (everything in the thorough tier)
-        dom = names if (cname == "param_value" or ctx.thorough) else short + rs.fork(cname).shuffle([n for n in names if len(n) > 2])[:300]
+        dom = names if (cname == "param_value" or ctx.thorough) else short + rs.fork(cname).shuffle([n for n in names if len(n) > 2])[:120]
         for w in (2, 3, 4):
             for nm in dom:
                 meta.append((cname, w, nm))
@@ -309,9 +309,10 @@ def leaf_correspondence(ctx, tools, exe):
     res = nagarun.parallel_batches(tools["c11drive"], "diag", jobs, chunk=1500, per_job_timeout=5.0)
     mres = vcheck.run_model(exe, [{"op": "swizzle", "name": [ord(ch) for ch in nm], "w": w} for (_c, w, nm) in meta])
     nacc = 0
+    swz_bad = {}
     for (cname, w, nm), j, m in zip(meta, jobs, mres):
         r = res.get(j["id"]) or {}
-        impl_ok = (not r.get("stage")) and not r.get("compile_rejected") and "crash" not in r and "panic" not in r and r.get("ntok")
+        impl_ok = bool((not r.get("stage")) and not r.get("compile_rejected") and "crash" not in r and "panic" not in r and r.get("ntok"))
         model_ok = m.get("model") is not None
         spec_ok = m.get("spec") is not None
         nacc += 1 if model_ok else 0
@@ -319,10 +320,15 @@ def leaf_correspondence(ctx, tools, exe):
             broken.append("extracted swizzle_model and swizzle_spec differ on %r width %d (contradicts c11_swizzle_model_eq_spec)" % (nm, w))
         if impl_ok != model_ok:
             if impl_ok and not spec_ok:
-                leaf_violation("leaf:swizzle:%s:vec%d.%s" % (cname, w, nm),
-                               "invalid vector access `.%s` on a vec%d is compiled (context %s); the swizzle model predicts rejection" % (nm, w, cname), j["src"])
+                swz_bad.setdefault(cname, []).append((len(nm), nm, w, j["src"]))
             else:
                 broken.append("swizzle: naga rejects `.%s` on vec%d (%s) that the model accepts: %s" % (nm, w, cname, (r.get("err") or "")[:120]))
+    for cname, lst in sorted(swz_bad.items()):
+        _l, nm, w, src = sorted(lst)[0]   # the shortest wrongly accepted name of this access path
+        found["leaf:swizzle:%s:vec%d.%s" % (cname, w, nm)] = [
+            "invalid vector access `.%s` on a vec%d is compiled (context %s); the swizzle model (= the WGSL rule, c11_swizzle_model_eq_spec) "
+            "predicts rejection; %d (name, width) pairs of this context are wrongly accepted, e.g. %s" % (
+                nm, w, cname, len(lst), " ".join("vec%d.%s" % (x[2], x[1]) for x in sorted(lst)[:12])), src, 1]
     stats["swizzle"] = {"compared": len(jobs), "names": len(names), "accepted_by_model": nacc, "contexts": sorted(SWZ_CONTEXTS) + ["store_target"]}
     # ---- array size, constant division, pairing, workgroup size
     jobs = []
@@ -377,7 +383,7 @@ def leaf_correspondence(ctx, tools, exe):
         r = res.get(j["id"]) or {}
         cnt[kind] = cnt.get(kind, 0) + 1
         impl_rejects_at_lower = r.get("stage") in ("parse", "lower")
-        impl_accepts = (not r.get("stage")) and not r.get("compile_rejected") and "crash" not in r and "panic" not in r and r.get("ntok")
+        impl_accepts = bool((not r.get("stage")) and not r.get("compile_rejected") and "crash" not in r and "panic" not in r and r.get("ntok"))
         if kind == "array_size":
             model_err = m["model"]["verdict"] == "error"
             spec_err = m["spec"]["verdict"] == "error"
@@ -498,6 +504,12 @@ def run(ctx):
     ok, failed, log = vcheck.proof_step(
         ctx, "Props/C11.v", MODEL_FILES, gen_writer=lambda: gen.regenerate(tools, ["diag"]),
         extra_obligation_files=["Diag/DiagInst.v"])
+    if not ok and "build_goal_" in log:
+        # another session's bin/coqgoal scratch file raced into _CoqProject: not ours, build again
+        ctx.cov["obligations"] = ctx.cov["discharged"] = 0
+        ok, failed, log = vcheck.proof_step(
+            ctx, "Props/C11.v", MODEL_FILES, gen_writer=lambda: gen.regenerate(tools, ["diag"]),
+            extra_obligation_files=["Diag/DiagInst.v"])
     ctx.cov["trusted_base"] += [
         "translator: harness/cmd/goextract (go/ast switch tables, function-body text) + gen.py gen_diag -> coq/Gen/DiagTables.v; "
         "the reviewed Go text in coq/Diag/Reviewed.v and my transliteration of it into coq/Diag/*Model.v",
@@ -527,8 +539,8 @@ def run(ctx):
     lap("extract_and_leaf_correspondence")
     # ---- site enumeration
     rng = ctx.rng.fork("sites")
-    tb, tcases = template_cases(rng, ctx.scale(2, 6), ctx.scale(0.3, 1.0))
-    cb, ccases = corpus_cases(ctx, tools, ctx.scale(40, 400), ctx.scale(2, 6))
+    tb, tcases = template_cases(rng, ctx.scale(2, 4), ctx.scale(0.3, 1.0))
+    cb, ccases = corpus_cases(ctx, tools, ctx.scale(40, 400), ctx.scale(2, 4))
     lap("generate_cases")
     bases = run_cases(ctx, tools, exe, tb + cb, want_text=True)
     lap("bases")
